@@ -166,9 +166,10 @@ pub fn parameter_has_annotation(lines: &[&str], line: usize, end_char: usize) ->
     };
 
     // Get the text after the parameter name
-    let after_param = if end_char < line_text.len() {
-        &line_text[end_char..]
-    } else {
+    // `end_char` was recorded for an earlier version of the document. After an edit that
+    // does not parse, the line may be shorter or hold multi-byte characters at that offset,
+    // so the offset need not be a character boundary of the current text.
+    let Some(after_param) = line_text.get(end_char..).filter(|rest| !rest.is_empty()) else {
         return false;
     };
 
